@@ -259,6 +259,10 @@ CHECK_DEADLOCK FALSE
 def _tlc_group(args):
     kind, wa, items, name = args
     tabs = SE.extract_tables(kind, items[0][0]["flavour"] if items[0][0]["flavour"] != "-" else "diag", wa)
+    if [m for m in SE.documented_memo_methods()[kind] if m not in tabs["declared"]]:
+        # the code no longer memoises a documented method: Trace_StateCache cannot be instantiated with the code's tables
+        # (not a verdict; the counters of the recorded trajectories and the repeated-call family decide)
+        return [{"unconsumed": [f"{kind}: model not instantiable (documented memoised method not memoised in the code)"]}], 0, 0
     nobj = max(max([e.get("n", 0) for e in ev] + [1]) for _, ev in items)
     d = tlc.fresh_dir(name)
     tlc.stage_specs(d, ["StateCache.tla", "CacheTables.tla", "Trace_StateCache.tla"])
